@@ -572,10 +572,8 @@ func (c *MJSocialElementComponent) Render(w io.StringWriter) error {
 	backgroundColor := c.getAttribute("background-color")
 	borderRadius := c.getAttribute("border-radius")
 
-	// Skip rendering if no src provided
-	if src == "" {
-		return nil
-	}
+	// An element without an icon (no src, unknown network) is still rendered, as MJML does: the icon cell stays
+	// empty-handed (an <img> without src) and the text is kept.
 
 	if c.verticalMode {
 		// Vertical mode: render as table row without MSO conditionals
@@ -626,9 +624,11 @@ func (c *MJSocialElementComponent) Render(w io.StringWriter) error {
 
 		img := html.NewHTMLTag("img")
 		img.AddAttribute("alt", alt)
-		img.AddAttribute("height", heightAttr).
-			AddAttribute("src", src).
-			AddAttribute("width", widthAttr).
+		img.AddAttribute("height", heightAttr)
+		if src != "" {
+			img.AddAttribute("src", src)
+		}
+		img.AddAttribute("width", widthAttr).
 			AddStyle("border-radius", borderRadius).
 			AddStyle("display", "block")
 
@@ -804,9 +804,11 @@ func (c *MJSocialElementComponent) Render(w io.StringWriter) error {
 	img := html.NewHTMLTag("img")
 	img.AddAttribute("alt", alt)
 
-	img.AddAttribute("height", heightAttr).
-		AddAttribute("src", src).
-		AddAttribute("width", widthAttr)
+	img.AddAttribute("height", heightAttr)
+	if src != "" {
+		img.AddAttribute("src", src)
+	}
+	img.AddAttribute("width", widthAttr)
 
 	// Add title attribute if specified
 	title := c.GetWrittenAttribute("title")
